@@ -987,6 +987,7 @@ class Driver:
                         res["closed_ok"] = bool(fh.get("present") and fh.get("crc_ok") and fh.get("length") == len(img1) and why == "eof"
                                                 and chunks and chunks[-1]["tag"] == 0xFF and all(c["crc_ok"] and c["pcrc_ok"] for c in chunks)
                                                 and back < 0)
+                        res["links"] = lifter.link_projection(chunks)
                         res["closed_why"] = "%s len=%s size=%d last=%s back=%d" % (why, fh.get("length"), len(img1), chunks[-1]["tag"] if chunks else None, back)
                 os.write(wfd, json.dumps(res).encode())
             finally:
@@ -1036,7 +1037,8 @@ class Driver:
                    "term": term, "rc": res.get("rc", -1), "wcount": res.get("wcount", 0), "modified": bool(res.get("modified", False)),
                    "sigs": obs["sigs"], "annos": obs["annos"], "utcs": obs["utcs"], "ud": obs["ud"], "nsig": obs.get("nsig", 0),
                    "re": res.get("re", {"rc": 0, "wcount": 0, "modified": False, "same": True}),
-                   "closed_ok": bool(res.get("closed_ok", True)), "closed_why": res.get("closed_why", ""), "size": len(img)})
+                   "closed_ok": bool(res.get("closed_ok", True)), "closed_why": res.get("closed_why", ""), "size": len(img),
+                   "lk": res.get("links", [])})
         if self.repseq and j == 0 and term == "ok" and res.get("rc", -1) == 0:
             # tier-B conformance of the repair (JlsRepair.tla): the FSR chunk sequence before and after the repairing open
             try:
@@ -1054,6 +1056,24 @@ class Driver:
                     continue        # the same image of this track (later writes went to other tracks)
                 self.repseq_seen.add(key)
                 self.emit({"e": "RepSeq", "sig": g, "k": w, "P": [_clip(v) for v in a["P"]], "att": bool(a["att"]), "pre": a["seq"], "post": b["seq"]})
+        if self.repseq and (j == 0 or w == -1) and term == "ok" and res.get("rc", -1) == 0:
+            # tier-B conformance of the pointer repair (JlsTsRepair.tla): links of the annotation / UTC tracks before / after
+            try:
+                tpre = ts_chunk_seq(img)
+                with open(ipath, "rb") as f:
+                    tpost = ts_chunk_seq(f.read(), limit={key: a["k"] for key, a in tpre.items()})
+            except (OSError, struct.error):
+                tpre, tpost = {}, {}
+            for key, a in tpre.items():
+                b = tpost.get(key)
+                if b is None or b["k"] != a["k"] or any(v < 0 for v in a["nx"] + a["le"] + a["hd"]):
+                    continue
+                dk = ("ts", key, a["k"], tuple(a["nx"]), tuple(a["hd"]))
+                if dk in self.repseq_seen:
+                    continue
+                self.repseq_seen.add(dk)
+                self.emit({"e": "TsRepSeq", "sig": key[0], "tt": key[1], "w": w, "k": a["k"], "tag": a["tag"], "lvl": a["lvl"], "nx": a["nx"],
+                           "le": a["le"], "hd": a["hd"], "pnx": b["nx"], "phd": b["hd"]})
         try:
             os.remove(ipath)
         except OSError:
@@ -1179,7 +1199,7 @@ class Driver:
                        "wcount": res.get("wcount", 0), "modified": bool(res.get("modified", False)),
                        "sigs": o_["sigs"], "annos": o_["annos"], "utcs": o_["utcs"], "ud": o_["ud"], "nsig": o_.get("nsig", 0),
                        "defs": o_.get("defs", {"rc": 0, "srcs": [], "sigs": []}), "j": 1, "after_defs": False,
-                       "re": {"rc": 0, "wcount": 0, "modified": False, "same": True}, "closed_ok": True, "pass": npass})
+                       "re": {"rc": 0, "wcount": 0, "modified": False, "same": True}, "closed_ok": True, "pass": npass, "lk": []})
         try:
             os.remove(ipath)
         except OSError:
@@ -1348,6 +1368,46 @@ def _any_failure(obs):
             if e_.get("rc") or any(r_[1] != 0 or r_[3] != 0 for r_ in e_.get("conv", [])):
                 return True
     return bool(obs.get("ud", {}).get("rc")) or bool(obs.get("defs", {}).get("rc"))
+
+
+def ts_chunk_seq(img, limit=None):
+    """The annotation / UTC tracks of an image as chunk sequences in file order with their links as ordinals (for the
+    tier-B model spec/JlsTsRepair.tla): (sig, track type) -> {k, tag, lvl, nx, le, hd}; a link is 0 (none), the ordinal
+    of the chunk of this sequence that starts there, k + 1 (no complete chunk of the first `limit` ones starts there:
+    dangling) or -1 (a chunk that is not part of this track).  limit = the number of chunks of each track to describe
+    (the file after the repair is described over the chunks the image had)."""
+    import lifter
+    fh, chunks, why = lifter.parse_image(img)
+    tracks = {}
+    heads = {}
+    alloff = {c["off"] for c in chunks}
+    for ch in chunks:
+        kind, tt, ck = lifter.tag_info(ch["tag"])
+        if kind != "track" or tt not in (2, 3):
+            continue
+        g = ch["meta"] & 0xfff
+        if ck == 1 and ch["pcrc_ok"] and len(ch["payload"]) == 128:
+            heads[(g, tt)] = list(struct.unpack("<16Q", ch["payload"]))
+        elif ck in (2, 3, 4) and ch["pcrc_ok"]:
+            le = 0
+            if ck == 3 and len(ch["payload"]) >= 16:
+                ts, cnt, esb, rsv = struct.unpack("<qIHH", ch["payload"][:16])
+                if cnt > 0 and len(ch["payload"]) >= 16 + 16 * cnt:
+                    le = struct.unpack("<q", ch["payload"][16 + 16 * (cnt - 1) + 8:16 + 16 * cnt])[0]
+            tracks.setdefault((g, tt), []).append({"t": "DIS"[ck - 2], "l": ch["meta"] >> 12, "off": ch["off"], "next": ch["next"], "le": le})
+    out = {}
+    for key, seq in tracks.items():
+        if limit is not None:
+            seq = seq[:limit.get(key, 0)]
+        k = len(seq)
+        if k == 0 or k > 300 or key not in heads:
+            continue
+        ordof = {c["off"]: i + 1 for i, c in enumerate(seq)}
+        def o_(x):
+            return 0 if x == 0 else ordof.get(x, -1 if x in alloff else k + 1)
+        out[key] = {"k": k, "tag": [c["t"] for c in seq], "lvl": [c["l"] for c in seq], "nx": [o_(c["next"]) for c in seq],
+                    "le": [o_(c["le"]) for c in seq], "hd": [o_(x) for x in heads[key]]}
+    return out
 
 
 def fsr_chunk_seq(img):
